@@ -39,7 +39,8 @@ def log(*a):
 # TLC
 # ------------------------------------------------------------------------------------------
 _STR = r'"((?:[^"\\]|\\.)*)"'
-RE_TUPLE = re.compile(r'^<<\s*"(CASE|REJECT|INFO|STAT)"\s*,\s*(.*)>>\s*$')
+# not anchored: TLC's progress reporter writes from another thread and its text can land on the same line
+RE_TUPLE = re.compile(r'<<\s*"(CASE|REJECT|INFO|STAT)"\s*,\s*(' + _STR + r')\s*>>')
 
 
 def _tlc_unescape(s):
@@ -108,26 +109,27 @@ def run_tlc(area, module, cfg, workdir, *, workers=4, timeout=600, env=None, deq
     with open(logf, errors="replace") as f:
         for line in f:
             line = line.rstrip("\n")
-            m = RE_TUPLE.match(line)
-            if m:
-                kind, rest = m.group(1), m.group(2)
-                sm = re.match(r"^" + _STR + r"\s*$", rest.strip())
-                val = None
-                if sm:
-                    txt = _tlc_unescape(sm.group(1))
-                    try:
-                        val = json.loads(txt)
-                    except Exception:
-                        val = txt
-                else:
-                    val = rest.strip()
+            found = False
+            for m in RE_TUPLE.finditer(line):
+                found = True
+                kind = m.group(1)
+                txt = _tlc_unescape(m.group(3))
+                try:
+                    val = json.loads(txt)
+                except Exception:
+                    val = txt
+                    if kind in ("REJECT", "CASE"):
+                        res.errors.append("unparsable %s record: %s" % (kind, line[:200]))
                 if kind == "CASE":
                     res.cases.append(val)
                 elif kind == "REJECT":
                     res.rejects.append(val)
                 else:
                     res.infos.append(val)
-                continue
+            if found:
+                line = RE_TUPLE.sub("", line)
+                if not line.strip():
+                    continue
             tail.append(line)
             if len(tail) > 400:
                 tail = tail[-300:]
